@@ -386,9 +386,15 @@ def run_script(backend, slots, script_slots=(), keep=False):
                 targets.append(['runcmds'])
             if have_tests:
                 targets.append(['test'])
+            # flag variables that only exist in the environment of the BUILD tool were not
+            # specified by the script (nor at configure time): they must not reach any step
+            benv = dict(env)
+            for var in ('CFLAGS', 'CPPFLAGS', 'CXXFLAGS', 'LDFLAGS', 'LDLIBS'):
+                if var not in genv:
+                    benv[var] = '-DVF_BUILD_TIME_%s_LEAK' % var
             for t in targets:
                 extra_args = ['-k'] if backend == 'make' else ['-k', '0']
-                rc, o = proj.build(bld, backend, t, env=env, extra=extra_args)
+                rc, o = proj.build(bld, backend, t, env=benv, extra=extra_args)
                 out.build.append((t, rc, o[-1200:]))
             out.records = proj.read_log(log)
         return out, exp
